@@ -287,39 +287,77 @@ func (w *world) expireAll() int {
 	return len(ls) + len(bs)
 }
 
-// cacheDirs counts the per-layer fscache directories (one is created per resolved layer
-// object and removed when that object is closed) and the per-blob httpcache directories.
-func (w *world) cacheDirs() (fscache, httpcache int) {
-	cnt := func(d string) int {
-		es, err := os.ReadDir(filepath.Join(w.root, d))
-		if err != nil {
-			return 0
-		}
-		return len(es)
+// liveLayerDirs counts the per-layer fscache directories of layer objects that were never
+// closed. The resolver creates one directory cache per layer object (with a "wip"
+// sub-directory made at construction) and closing the layer removes the whole directory.
+// An asynchronous chunk write that is still in flight when the layer is closed may re-create
+// the top directory (MkdirAll of a chunk path) — such a directory has no "wip" any more and
+// is not counted (cache-level leftover, not this property's business).
+func (w *world) liveLayerDirs() (live, resurrected int) {
+	es, err := os.ReadDir(filepath.Join(w.root, "fscache"))
+	if err != nil {
+		return 0, 0
 	}
-	return cnt("fscache"), cnt("httpcache")
+	for _, e := range es {
+		if _, err := os.Stat(filepath.Join(w.root, "fscache", e.Name(), "wip")); err == nil {
+			live++
+		} else {
+			resurrected++
+		}
+	}
+	return
 }
 
-var resolveFrame = []byte("stargz-snapshotter/store.(*LayerManager).resolveLayer(")
-
 var (
-	dumpMu  sync.Mutex
-	dumpBuf = make([]byte, 1<<20)
+	resolveFrame  = []byte("stargz-snapshotter/store.(*LayerManager).resolveLayer(")
+	getLayerFrame = []byte("stargz-snapshotter/store.(*LayerManager).getLayer.func1")
+	wgGoCreated   = []byte("created by sync.(*WaitGroup).Go")
+	chanSend      = []byte("[chan send")
+	dumpMu        sync.Mutex
+	dumpBuf       = make([]byte, 1<<20)
 )
 
-// resolving reports whether some goroutine of this process currently executes
-// LayerManager.resolveLayer (getLayer returns as soon as the wanted layer is there; the
-// resolutions of the image's other layers continue in the background).
-func resolving() bool {
+// resolving reports whether some goroutine of this process is (or is about to be) busy
+// resolving a layer for LayerManager.getLayer: getLayer returns as soon as the wanted layer
+// is there, the goroutines it started for the image's other layers continue in the
+// background. A goroutine counts when it (a) has a frame of resolveLayer, (b) is one of
+// getLayer's per-layer goroutines and is not parked in its final channel send (those that
+// are parked there are left behind for good once getLayer has returned), or (c) was created
+// by WaitGroup.Go and has not run its function yet.
+func resolving() (busy bool, why string) {
 	dumpMu.Lock()
 	defer dumpMu.Unlock()
+	var dump []byte
 	for {
 		n := runtime.Stack(dumpBuf, true)
 		if n < len(dumpBuf) {
-			return bytes.Contains(dumpBuf[:n], resolveFrame)
+			dump = dumpBuf[:n]
+			break
 		}
 		dumpBuf = make([]byte, 2*len(dumpBuf))
 	}
+	for _, blk := range bytes.Split(dump, []byte("\n\n")) {
+		if bytes.Contains(blk, resolveFrame) {
+			return true, "in-resolveLayer"
+		}
+		if !bytes.Contains(blk, wgGoCreated) {
+			continue
+		}
+		head := blk
+		if i := bytes.IndexByte(blk, '\n'); i >= 0 {
+			head = blk[:i]
+		}
+		if bytes.Contains(blk, getLayerFrame) {
+			if !bytes.Contains(head, chanSend) {
+				return true, "getLayer-goroutine-outside-resolveLayer"
+			}
+			continue
+		}
+		if !bytes.Contains(blk, []byte("stargz-snapshotter/")) {
+			return true, "goroutine-not-started-yet"
+		}
+	}
+	return false, ""
 }
 
 // settled is the cheap test: every layer of every image the manager has touched has a
@@ -356,7 +394,12 @@ func (w *world) quiesce() bool {
 		return true
 	}
 	w.r.Count("quiesce_by_goroutine_dump", 1)
-	for i := 0; resolving(); i++ {
+	for i := 0; ; i++ {
+		busy, why := resolving()
+		if !busy {
+			break
+		}
+		w.r.Count("quiesce_waited_for:"+why, 1)
 		if time.Since(t) > 90*time.Second {
 			w.r.Inconclusive("watchdog: background resolutions did not finish")
 			return false
@@ -476,6 +519,15 @@ func openDiff(l layer.Layer, d digest.Digest, id uint32) (*nodefs.N, error) {
 
 // readFiles reads up to nFiles regular files of the layer through the node interfaces and
 // compares size and content with the tar model.
+// mismatch marks an answer that differs from the tar (as opposed to an operation that failed).
+type mismatch struct{ msg string }
+
+func (m mismatch) Error() string { return m.msg }
+
+func mismatchf(f string, a ...any) error { return mismatch{fmt.Sprintf(f, a...)} }
+
+func isMismatch(err error) bool { _, ok := err.(mismatch); return ok }
+
 func readFiles(root *nodefs.N, s *layerSpec, rng *prng.R, nFiles int) error {
 	if len(s.files) == 0 {
 		return nil
@@ -492,7 +544,7 @@ func readFiles(root *nodefs.N, s *layerSpec, rng *prng.R, nFiles int) error {
 			return fmt.Errorf("getattr %q: errno %d", p, int(errno))
 		}
 		if int64(a.Size) != want.Size {
-			return fmt.Errorf("size of %q is %d, the tar says %d (content of another layer?)", p, a.Size, want.Size)
+			return mismatchf("size of %q is %d, the tar says %d (content of another layer?)", p, a.Size, want.Size)
 		}
 		fh, _, errno := n.Open()
 		if errno != 0 {
@@ -504,10 +556,10 @@ func readFiles(root *nodefs.N, s *layerSpec, rng *prng.R, nFiles int) error {
 			return fmt.Errorf("read %q: errno %d", p, int(errno))
 		}
 		if int64(len(got)) != want.Size {
-			return fmt.Errorf("read %q returned %d bytes, the tar says %d", p, len(got), want.Size)
+			return mismatchf("read %q returned %d bytes, the tar says %d", p, len(got), want.Size)
 		}
 		if at := gen.CheckContent(want.ContentID, 0, got); at >= 0 {
-			return fmt.Errorf("content of %q differs from the tar at byte %d", p, at)
+			return mismatchf("content of %q differs from the tar at byte %d", p, at)
 		}
 	}
 	return nil
@@ -516,7 +568,7 @@ func readFiles(root *nodefs.N, s *layerSpec, rng *prng.R, nFiles int) error {
 // readBlob does what blobfile.Read does and compares with the published blob bytes.
 func readBlob(l layer.Layer, s *layerSpec, rng *prng.R) error {
 	if sz := l.Info().Size; sz != int64(len(s.built.Blob)) {
-		return fmt.Errorf("blob size %d, published %d", sz, len(s.built.Blob))
+		return mismatchf("blob size %d, published %d", sz, len(s.built.Blob))
 	}
 	off := int64(rng.Intn(len(s.built.Blob)))
 	n := rng.Range(1, 700)
@@ -530,7 +582,7 @@ func readBlob(l layer.Layer, s *layerSpec, rng *prng.R) error {
 		want = want[:n]
 	}
 	if got != len(want) || !bytes.Equal(buf[:got], want) {
-		return fmt.Errorf("ReadAt(%d,%d) returned %d bytes that differ from the published blob", off, n, got)
+		return mismatchf("ReadAt(%d,%d) returned %d bytes that differ from the published blob", off, n, got)
 	}
 	return nil
 }
